@@ -242,7 +242,8 @@ func (t *TracksReader) MultiPlay(trackouts map[int]drivers.Out) error {
 		},
 	)
 
-	sort.Sort(pl)
+	// stable: events with the same time must keep their order (e.g. within a track)
+	sort.Stable(pl)
 
 	var last time.Duration = 0
 
